@@ -2,6 +2,8 @@
 """Development harness: run checks against the seeded changes in parallel, each applied in its own
 scratch worktree (JSV_REPO points the extraction at the worktree). usage: run_mutants.py [ids...] [--checks C01,C02]"""
 import json, os, subprocess, sys, concurrent.futures as cf, time
+ROOT = os.environ.get("MUT_ROOT", "/tmp/mut")
+OFF = int(os.environ.get("MUT_OFFSET", "0"))
 
 def sh(cmd, cwd, env=None, timeout=3600):
     e = dict(os.environ, CARGO_NET_OFFLINE="true")
@@ -14,10 +16,10 @@ checks = None
 for a in sys.argv[1:]:
     if a.startswith("--checks="):
         checks = a.split("=", 1)[1].split(",")
-SRC = os.environ.get("MUT_SRC", "/tmp/mut")
+SRC = os.environ.get("MUT_SRC", ROOT)
 
 def one(pid):
-    wt = "/tmp/mut/%s" % pid
+    wt = ROOT + "/%s" % pid
     out = "%s/%s.out" % (SRC, pid) if os.path.isdir("%s/%s.out" % (SRC, pid)) else "/verif/seeded"
     res = []
     head = subprocess.run("git -C /repo rev-parse HEAD", shell=True, capture_output=True, text=True).stdout.strip()
@@ -31,14 +33,14 @@ def one(pid):
         sh("git checkout -q -- . && git clean -fdq -e target -e Cargo.lock", wt)
         rc, o = sh("git apply %s" % diff, wt)
         if rc != 0:
-            res.append(("%s-%d" % (pid, k), "APPLY-FAIL", o[-200:])); continue
+            res.append(("%s-%d" % (pid, k + OFF), "APPLY-FAIL", o[-200:])); continue
         for c in (checks or [pid]):
             t0 = time.time()
-            od = "/tmp/mut/out-%s-%d" % (pid, k)
+            od = ROOT + "/out-%s-%d" % (pid, k)
             rc, o = sh("/verif/check %s" % c, "/verif", env={"JSV_REPO": wt, "JSV_CACHE_KEEP": "100", "JSV_OUT_DIR": od})
             lines = [l for l in o.splitlines() if l.startswith("VIOLATION") or l.startswith("OK ") or l.startswith("  [")]
             verdict = "CAUGHT" if rc == 1 and any(l.startswith("VIOLATION") for l in lines) else ("missed" if rc == 0 else "ERROR rc=%d" % rc)
-            res.append(("%s-%d" % (pid, k), c, verdict, round(time.time() - t0, 1), [l[:260] for l in lines if l.startswith("  [")][:3] if verdict != "missed" else "", o[-400:] if verdict.startswith("ERROR") else ""))
+            res.append(("%s-%d" % (pid, k + OFF), c, verdict, round(time.time() - t0, 1), [l[:260] for l in lines if l.startswith("  [")][:3] if verdict != "missed" else "", o[-400:] if verdict.startswith("ERROR") else ""))
         sh("git checkout -q -- . && git clean -fdq -e target -e Cargo.lock", wt)
     return res
 
